@@ -247,6 +247,24 @@ CLAIMED = {
         note=TB + "Partial: next_done called by the application between join's iterations, add_task of an already finished task and the retain option are not in the model.",
         technique="Coq proof (order / exactly-once / first-finisher invariants by induction over label lists, generic preservation lemma for the joining coroutine) + per-handle vm_compute trace correspondence + policy oracle on the real runs",
         ref='6/C10'),
+    'C08': dict(
+        text=("Proof (partial): on the life-cycle LTS of a session (link lost, message loop ended with its connection-lost hook "
+              "cancelling the pending requests, the TaskGroup of process_messages cancelling the loop and every handler, handlers "
+              "finishing, the group block left = _closed_event set, close() calls from the application / concurrently / "
+              "repeatedly / inside a handler returning, the force_after deadline forcing an abort), for EVERY event sequence the "
+              "LTS allows: the hook runs at most once and exactly when the loop has ended; after it no caller registered before "
+              "is left waiting; _closed_event set implies loop ended, hook ran, every handler finished; an application's close() "
+              "returns only then; a waiting close() can always be forced at its deadline; PROGRESS: once the link is lost, while "
+              "anything is left an internal step is enabled (assuming only that a handler whose cancellation was requested "
+              "finishes), every internal step decreases a measure, so every maximal internal run is finite and ends with nothing "
+              "left. Partial: that the real objects follow the LTS is the projected trace acceptance after every loop handle, "
+              "with faults (drop, close, concurrent close, abort, close in a handler, repeated close, abort then close) injected at "
+              "chosen points of scripted conversations over RPCSession and MessageSession, RSTransport and USTransport, graceful "
+              "close completing or never completing; the oracle (hook count, no task left, close() returned, callers released "
+              "no later than the hook) is computed from the real run alone."),
+        note=TB + "Partial: the LTS is coarser than a loop handle (the TaskGroup and the timeout block inside close() appear through what C09 and C11 prove of them); the fake asyncio transport's close/abort semantics are trusted; SSL and real sockets are not modelled.",
+        technique="Coq proof (LTS invariant by induction over event lists; progress + well-founded measure for the internal steps) + projected per-handle vm_compute trace acceptance with fault injection on a single-step loop",
+        ref='6/C08'),
 }
 
 REASONS = {}
